@@ -28,6 +28,9 @@ out   'start outside the support': the chain sits at a state whose log-density i
 rep   'initial point representation': Python scalar/int, NumPy scalar, 0-d, length-1, list, tuple, ndarray, strided view,
       CUQIarray, default, on targets of dimension 1 and > 1: every transition from the initial state consumes one normal
       variate per component, the identified proposal is the documented one, and the acceptance oracle applies.
+prop  'user-supplied proposal spelling' (MH, CWMH, both interfaces): conditional Normal/Uniform proposals with the lambdas'
+      arguments in either order, split lambdas, plain callables, fixed symmetric distributions; identified proposal
+      vs documented (centre = state, width = scale) and the threshold oracle; refused spellings are refusals.
 stat  stationarity (second line): K independent chains started from exact draws of targets with a
       known law, k in {1,3} transitions, normal-score battery (KS, mean, second and cross moments),
       two-stage rule (p < 1e-7, then 4x sample, same statistic, same direction).
@@ -57,7 +60,8 @@ REQUIRED_COUNTERS = {
               "chain_transitions_checked": 10000, "stationarity_tests": 12,
               "target_args_unchanged_checked": 50000, "forward_input_checked": 5000, "library_target_vs_reference_checked": 400,
               "outside_start_bad_proposals_checked": 600, "outside_start_inward_proposals_checked": 200,
-              "initial_point_rep_checked": 90, "initial_point_rep_noise_dim_checked": 800},
+              "initial_point_rep_checked": 90, "initial_point_rep_noise_dim_checked": 800,
+              "proposal_spelling_checked": 25},
     # thorough floors are ~30 % of a complete run, so that a heavily shared machine (cases cut by the wall-clock budget)
     # still gives a verdict
     "thorough": {"proposal_maps_identified": 10000, "documented_proposal_checked": 4500, "threshold_accept_side": 15000,
@@ -66,7 +70,8 @@ REQUIRED_COUNTERS = {
                  "chain_transitions_checked": 36000, "stationarity_tests": 30,
                  "target_args_unchanged_checked": 250000, "forward_input_checked": 30000, "library_target_vs_reference_checked": 1700,
                  "outside_start_bad_proposals_checked": 2400, "outside_start_inward_proposals_checked": 800,
-                 "initial_point_rep_checked": 300, "initial_point_rep_noise_dim_checked": 3000}}
+                 "initial_point_rep_checked": 300, "initial_point_rep_noise_dim_checked": 3000,
+                 "proposal_spelling_checked": 100}}
 BUDGET_S = {"quick": 240.0, "thorough": 2400.0}
 
 LEGACY_NAME = {"MH": "MH", "CWMH": "CWMH", "PCN": "pCN", "MALA": "MALA", "ULA": "ULA"}
@@ -261,8 +266,37 @@ def _rep_cases(tier, seed):
     return out
 
 
+SPELLINGS = {"CWMH": ["none", "normal_ls", "normal_sl", "normal_split", "normal_split_sl", "uniform_ls", "uniform_sl", "normal_meanstd",
+                      "callable", "callable_sl_kw", "fixed_normal"],
+             "MH": ["none", "fixed_gauss", "fixed_normal", "fixed_uniform", "normal_ls", "uniform_sl", "callable"]}
+SPELL_TARGETS = ["gauss", "logistic", "banana", "box", "student", "post_lin", "nanhalf"]
+
+
+def _prop_cases(tier, seed):
+    """'user-supplied proposal spelling' for every sampler that accepts a proposal (MH and CWMH, both interfaces)."""
+    reps_n = 2 if tier == "quick" else 10
+    out = []
+    for name in ("MH", "CWMH"):
+        for iface in ("exp", "legacy"):
+            rng = core.rng_for(seed, PROPERTY, "prop", name, iface, tier)
+            k = 0
+            for rr in range(reps_n):
+                for sp in SPELLINGS[name]:
+                    tgt = SPELL_TARGETS[(k + seed) % len(SPELL_TARGETS)]; k += 1
+                    d = max(rng.choice([2, 3, 4] if name == "CWMH" else [1, 2, 3]), R.MIN_DIM.get(tgt, 1))
+                    c = {"kind": "prop", "sampler": name, "iface": iface, "target": tgt, "d": d, "spelling": sp,
+                         "hist": rng.choice(["fresh", "fresh", "warm" if iface == "exp" else "adapted"]),
+                         "scale": rng.choice(["one", "mid", "mid", "small"] + (["vec", "vec"] if name == "CWMH" else [])),
+                         "state": rng.choice(["typ", "typ", "tail"]),
+                         "route": rng.choice(["step", "sample"] if iface == "exp" else ["single_update", "sample2"]), "i": rr}
+                    if tgt.startswith("post"):
+                        c["pmean"] = rng.choice(["nonzero", "zero"]); c["pcov"] = rng.choice(["scalar", "vector", "matrix"])
+                    out.append(c)
+    return out
+
+
 def cases(tier, seed):
-    rest = _chain_cases(tier, seed) + _thr_cases(tier, seed) + _out_cases(tier, seed) + _rep_cases(tier, seed)
+    rest = _chain_cases(tier, seed) + _thr_cases(tier, seed) + _out_cases(tier, seed) + _rep_cases(tier, seed) + _prop_cases(tier, seed)
     core.rng_for(seed, PROPERTY, "order", tier).shuffle(rest)     # a wall-clock cut must not fall on one sampler
     out = _stat_cases(tier, seed) + rest                          # the expensive stat cases first, spread over all shards
     flt = os.environ.get("VERIF_C02_FILTER")       # development only, e.g. "MALA:exp" (a filtered run cannot reach the coverage floors)
@@ -273,7 +307,7 @@ def cases(tier, seed):
 
 
 def _cfg(case, **extra):
-    keys = ("kind", "sampler", "iface", "target", "hist", "route", "pmean", "pcov", "grad_bad", "proposal", "mode", "start", "rep",
+    keys = ("kind", "sampler", "iface", "target", "hist", "route", "pmean", "pcov", "grad_bad", "proposal", "mode", "start", "rep", "spelling",
             "geom", "pname", "pgeom", "gform")
     c = {k: case[k] for k in keys if k in case}
     c.update(extra)
@@ -475,6 +509,32 @@ class Env:
                 rec.gpts.append(xx)
                 return ref.grad(xx)
             self.ctarget = cuqi.distribution.UserDefinedDistribution(dim=d, logpdf_func=lpf, gradient_func=gf, name="x")
+        self.noise_api, self.noise_gain, self.proposal_factory = "normal", 1.0, None
+        sp = case.get("spelling")
+        if sp is not None and sp != "none":
+            Dm = cuqi.distribution
+            w = rs.uniform(0.5, 2.0, d)
+            fac = {
+                # conditional on location/scale, the lambdas' argument order both ways
+                "normal_ls": lambda: Dm.Normal(mean=lambda location, scale: location, std=lambda location, scale: scale, geometry=d),
+                "normal_sl": lambda: Dm.Normal(mean=lambda scale, location: location, std=lambda scale, location: scale, geometry=d),
+                "normal_split": lambda: Dm.Normal(mean=lambda location: location, std=lambda scale: scale, geometry=d),
+                "normal_split_sl": lambda: Dm.Normal(std=lambda scale: scale, mean=lambda location: location, geometry=d),
+                "uniform_ls": lambda: Dm.Uniform(low=lambda location, scale: location - scale, high=lambda location, scale: location + scale, geometry=d),
+                "uniform_sl": lambda: Dm.Uniform(low=lambda scale, location: location - scale, high=lambda scale, location: location + scale, geometry=d),
+                "normal_meanstd": lambda: Dm.Normal(geometry=d),
+                "callable": lambda: (lambda x, sc_: np.asarray(x, float) + np.asarray(sc_, float) * np.random.randn(d)),
+                "callable_sl_kw": lambda: (lambda location, scale: np.asarray(location, float) + np.asarray(scale, float) * np.random.randn(d)),
+                # fixed symmetric distributions
+                "fixed_gauss": lambda: Dm.Gaussian(np.zeros(d), np.diag(w ** 2)),
+                "fixed_normal": lambda: Dm.Normal(np.zeros(d), w.copy()),
+                "fixed_uniform": lambda: Dm.Uniform(-w.copy(), w.copy()),
+            }
+            self.proposal_factory = fac[sp]
+            if sp.startswith("uniform") or sp == "fixed_uniform":
+                self.noise_api, self.noise_gain = "uniform", 2.0      # x* = centre + 2*width*(u - 1/2)
+            if sp.startswith("fixed"):
+                self.prop_cov, self.prop_mean = np.diag((self.noise_gain * w) ** 2), np.zeros(d)
         if name == "MH" and case.get("proposal", "default") != "default":
             C = R._spd(rs, d, cond=10.0)
             self.prop_cov = 0.5 * (C + C.T)
@@ -585,12 +645,16 @@ class Driver:
         if self.iface == "exp":
             cls = getattr(cuqi.experimental.mcmc, self.name)
             kw = {"scale": sc, "initial_point": None if x0 is None else (keep if raw_x0 else np.array(x0, float)), "callback": callback}
-            if self.name == "MH" and env.prop_cov is not None:
+            if getattr(env, "proposal_factory", None) is not None:
+                kw["proposal"] = env.proposal_factory()
+            elif self.name == "MH" and env.prop_cov is not None:
                 kw["proposal"] = cuqi.distribution.Gaussian(env.prop_mean.copy(), env.prop_cov.copy(), name="xi")
             return cls(env.ctarget, **kw)
         cls = getattr(cuqi.sampler, LEGACY_NAME[self.name])
         kw = {"scale": sc, "x0": None if x0 is None else (keep if raw_x0 else np.array(x0, float)), "callback": callback}
-        if self.name == "MH" and env.prop_cov is not None:
+        if getattr(env, "proposal_factory", None) is not None:
+            kw["proposal"] = env.proposal_factory()
+        elif self.name == "MH" and env.prop_cov is not None:
             kw["proposal"] = cuqi.distribution.Gaussian(env.prop_mean.copy(), env.prop_cov.copy(), name="xi")
         return cls(env.ctarget, **kw)
 
@@ -605,6 +669,24 @@ class Driver:
                 out["grad"] = s.target.gradient(x)
         self.env.rec.clear()
         return out
+
+    def _script(self, z, us):
+        """scripted stream: z is the proposal noise (standard normal variates, or for a uniform-family proposal the centred
+        uniform variates u - 1/2 delivered on the `uniform` API), us the accept/reject uniforms (`rand` API)."""
+        if getattr(self.env, "noise_api", "normal") != "uniform":
+            return Scripted(normal=_zprov(z), uniform=_uprov(us))
+        st = {"z": False, "k": 0}
+        def f(shape, api, seq):
+            if api == "uniform":
+                if not st["z"] and z is not None and np.size(z) == int(np.prod(shape)):
+                    st["z"] = True
+                    return np.asarray(z, float).reshape(shape) + 0.5
+                return None
+            k = st["k"]; st["k"] += 1
+            if us is not None and k < len(us):
+                return np.full(shape, float(us[k])) if shape != () else float(us[k])
+            return None
+        return Scripted(normal=None, uniform=f)
 
     def _full(self, v):
         """a scalar / length-1 state stands for the vector with all components equal."""
@@ -638,7 +720,7 @@ class Driver:
             o.pre = self.snapshot(s)
             o.x_prev = self._full(_arr(o.pre["current_point"]))
             env.rec.clear()
-            with Scripted(normal=_zprov(z), uniform=_uprov(us)) as scr:
+            with self._script(z, us) as scr:
                 if route == "step":
                     acc = s.step()
                 else:
@@ -660,7 +742,7 @@ class Driver:
                 args_copy = copy.deepcopy(args)
                 x_in = x.copy()
                 env.rec.clear()
-                with Scripted(normal=_zprov(z), uniform=_uprov(us)) as scr:
+                with self._script(z, us) as scr:
                     try:
                         out = s.single_update(x_in, *args)
                     except NameError as e:        # legacy ULA: documented refusal of a NaN potential
@@ -682,7 +764,7 @@ class Driver:
             else:
                 s.x0 = x.copy() if x0_obj is None else x0_obj      # x0_obj: the caller's own representation of the initial point
                 env.rec.clear()
-                with Scripted(normal=_zprov(z), uniform=_uprov(us)) as scr:
+                with self._script(z, us) as scr:
                     try:
                         r = s.sample(2)
                     except NameError as e:
@@ -696,9 +778,14 @@ class Driver:
             o.scale_changed = not np.array_equal(np.asarray(scale_before, float), np.asarray(s.scale, float))
             o.sampler = s
         o.pts = [p.copy() for p in env.rec.pts]
-        o.n_norm, o.n_unif = len(scr.normals()), len(scr.uniforms())
-        o.norm_size = sum(int(np.prod(dr[2])) if dr[2] != () else 1 for dr in scr.normals())
-        o.norm_scripted = all(dr[4] for dr in scr.normals())
+        if getattr(env, "noise_api", "normal") == "uniform":
+            noise = [dr for dr in scr.draws if dr[1] == "uniform"]
+            o.n_norm, o.n_unif = len(noise), len([dr for dr in scr.draws if dr[1] in ("rand", "random", "random_sample")]) + len(scr.normals())
+        else:
+            noise = scr.normals()
+            o.n_norm, o.n_unif = len(noise), len(scr.uniforms())
+        o.norm_size = sum(int(np.prod(dr[2])) if dr[2] != () else 1 for dr in noise)
+        o.norm_scripted = all(dr[4] for dr in noise)
         env.rec.clear()
         return o
 
@@ -956,6 +1043,8 @@ class Thr:
             return      # a user-defined prior exposes no mean; nothing is documented for this configuration
         prior = env.prior
         a_doc, S_doc = R.documented_proposal(self.name, x, self.scale, self.ref, env.prop_cov, prior)
+        if self.name == "CWMH":
+            S_doc = S_doc * getattr(env, "noise_gain", 1.0) ** 2      # uniform family: half-width = scale
         if self.name == "MH" and env.prop_mean is not None:
             a_doc = a_doc + float(self.scale) * env.prop_mean
         S = B @ B.T
@@ -1156,9 +1245,12 @@ class Thr:
         return out
 
     def run(self):
-        ctx = self.ctx
         if not self.build():
             return
+        self.run_body()
+
+    def run_body(self):
+        ctx = self.ctx
         x = self.x
         ctx.note("scale", self.scale)
         if self.name == "CWMH":
@@ -1576,6 +1668,37 @@ class Rep(Thr):
         ctx.nontrivial("rep:" + rp)
 
 
+# =========================================================================== user-supplied proposal spelling
+
+class Prop(Thr):
+    """A user-supplied proposal in different spellings (conditional library distributions with the lambdas' arguments in
+    either order, split lambdas, Normal/Uniform families, plain callables, fixed symmetric distributions).  The proposal
+    map is identified under the scripted stream and compared with the documented proposal (centre = current state
+    component, width = scale), then the threshold oracle of the thr cases runs.  A spelling the library refuses
+    (documented exception at construction or at the first transition) is a refusal."""
+
+    def run(self):
+        ctx, sp = self.ctx, self.case["spelling"]
+        try:
+            if not self.build():
+                return
+            probe = self.trans(self.x, np.zeros(self.d), [TINY_U] * max(1, self.D.n_unif))
+        except (ValueError, TypeError, NotImplementedError) as e:
+            if sp == "none":
+                raise
+            ctx.refused("proposal_" + sp, e)
+            ctx.count("proposal_spelling_refused")
+            ctx.nontrivial("refused:" + sp)
+            self.env.rec.clear(); self.env.rec.changed.clear(); self.env.rec.fwd_bad.clear()
+            return
+        ctx.count("proposal_spelling_accepted")
+        n0 = len(ctx.violations)
+        self.run_body()
+        ctx.count("proposal_spelling_checked")
+        if len(ctx.violations) == n0:
+            ctx.nontrivial("spelling:" + sp)
+
+
 # =========================================================================== chain cases (offline checker)
 
 def run_chain(case, ctx):
@@ -1886,6 +2009,8 @@ def run_case(case, ctx):
         Out(case, ctx).run()
     elif case["kind"] == "rep":
         Rep(case, ctx).run()
+    elif case["kind"] == "prop":
+        Prop(case, ctx).run()
     elif case["kind"] == "chain":
         run_chain(case, ctx)
     else:
